@@ -86,6 +86,23 @@ class UnivariateSplineStub:
             return call
         return _Anti(self.x, self.y)
 
+    def integral(self, a, b):
+        """definite integral of the interpolant: for symbolic data an uninterpreted value, congruent in
+        (knots, data, limits) - nothing else is assumed about the quadrature"""
+        from .npatch import unpatched, to_float
+        if self._concrete is not None:
+            with unpatched():
+                return self._concrete.integral(float(to_float(numpy.asarray(a))), float(to_float(numpy.asarray(b))))
+        cache = ENGINE.uf.setdefault("spline_integral", {})
+        ky = (_key(self.x), _key(self.y), _key([a, b]))
+        if ky not in cache:
+            cache[ky] = SymR(ENGINE.fresh("SplineIntegral"))
+            ENGINE.uf.setdefault("spline_keepalive", []).append((numpy.array(self.y, dtype=object), self.x))
+            if "spline integral" not in ENGINE.assumption_notes:
+                ENGINE.assumption_notes.append(
+                    "UnivariateSpline(...).integral(a, b) of symbolic data: uninterpreted, congruent")
+        return cache[ky]
+
     def __call__(self, *a, **kw):
         if self._concrete is not None:
             from .npatch import unpatched
